@@ -8,7 +8,8 @@ Theorems: Pyxv/Proofs/C07.lean about the translation-table pipeline `Pyxv.Itext`
 Tie: every generated form is converted by the implementation; the implementation's *built* survey
 (builder output, before `xml()`) is handed to the Lean model (`itext.model`), whose translations
 (language order, default flags, id order), body refs, bind refs and itextIds must equal what is
-read from the implementation's XForm.  Oracle: the Lean predicate `Itext.holds` (`itext.holds`)
+read from the implementation's XForm; the DOM of every <value> (`itext.doms`: text chunks interleaved with one <output> per
+${reference}, C06's mixed channel) must equal the implementation's serialised <value> element.  Oracle: the Lean predicate `Itext.holds` (`itext.holds`)
 evaluated on the implementation's own XForm, for every accepted form (inside the fragment or not).
 """
 
@@ -29,7 +30,8 @@ RULE = (
     "unused lists, randomized selects; bind messages incl. jr:noAppErrorString plain / with ${ref} / translated; language "
     "names differing only by letter case; default_language by setting and/or argument, also a case variant of a "
     "language) plus directed families (F6 shapes, names containing "
-    "'guidance_hint', hint+guidance in one language only); distinct by canonical hash of form+arguments; "
+    "'guidance_hint', hint+guidance in one language only; texts with 0-3 ${references} of every shape in every "
+    "text-bearing itext slot, per language, outside and inside a repeat); distinct by canonical hash of form+arguments; "
     "non-trivial = accepted by the converter and at least one jr:itext reference or itextId in the output"
 )
 
